@@ -12,6 +12,18 @@ CHECKS = {
             "Trusted: the Python reference (ref_num.py) and the canonical encoder hook. Operands outside the alphabet are not covered; "
             "inexact n-ary folds, float formatting and (/ x 0) with inexact x are left unspecified.",
             "DESIGN.md §3 C10"),
+    "C13": ("exploration",
+            "small-scope exhaustive enumeration of syntax-rules definitions and uses on the real expander: (pattern x template x argument tuple) grid against a reference matcher, and a metamorphic re-spelling relation for hygiene over binder kinds x use sites x spellings x definition sites",
+            "33 argument patterns (literals, one and two ellipsis levels, compound patterns under an ellipsis, patterns after an ellipsis, dotted tails, zero matches) x "
+            "templates derived from each pattern's variables x every argument tuple up to length 3 over a data pool whose symbols include the pattern-variable "
+            "spellings; templates are quoted so the expected datum comes from vp/ref_macro.py; 150 definitions and uses share one engine so that state kept "
+            "between expansions is exercised, and a mismatch is re-run alone and behind each single earlier case. Hygiene: every program is run with colliding "
+            "and with non-colliding spellings of template binders / use-site binders and must give the same value (8 binder kinds x 7 use sites x 5 spellings x "
+            "{same, earlier} unit; 8 free identifiers x 5 shadowing forms; nested, recursive, macro-defining macros; module macros incl. a three-file chain "
+            "with contract/out).",
+            "The R7RS 'x ... ...' template form and (... ...) escapes are not implemented by Steel and are outside the grid; identifiers with the reserved ## prefix "
+            "are not used as user spellings. Patterns deeper than two ellipsis levels and argument tuples longer than 3 are outside the bound.",
+            "DESIGN.md §3 C13"),
     "C12": ("exploration",
             "small-scope exhaustive enumeration of reader inputs (all strings/token sequences up to a length) and of data/programs for write-read and parse-print-parse round trips, on the real parser and engine; differential read-after-read histories",
             "Every string up to length 5 (thorough 6) over a 26-character alphabet chosen from the lexer's branches and every token sequence up to length 3 (4) "
